@@ -1,9 +1,10 @@
-import importlib.util
+import types
 
 
 def load_module(module_path: str):
-    spec = importlib.util.spec_from_file_location(module_path, module_path)
-    module = importlib.util.module_from_spec(spec)
+    # a module object of its own, whatever the file is called (spec_from_file_location knows files by their suffix only)
+    module = types.ModuleType(module_path)
+    module.__file__ = module_path
     # The file is compiled afresh every time. The import system would reuse a bytecode file written for an earlier version of it
     # when the size and the whole-second modification time did not change (a class file rewritten within the same second).
     with open(module_path, 'rb') as file:
